@@ -13,3 +13,21 @@ func (chain *BlockChain) VerifSetPushFailSleep(n int32) {
 		atomic.StoreInt32(&chain.push.postFail2Sleep, n)
 	}
 }
+
+var verifDelayHook atomic.Value // func(point string, height int64)
+
+// VerifSetDelayHook installs f (nil removes it); f is called at every verifDelay call site with the
+// height of the block being processed. It lets the harness hold a delivery between two critical
+// sections (a scheduling delay the program can have anyway).
+func VerifSetDelayHook(f func(point string, height int64)) {
+	if f == nil {
+		f = func(string, int64) {}
+	}
+	verifDelayHook.Store(f)
+}
+
+func verifDelay(point string, height int64) {
+	if f, ok := verifDelayHook.Load().(func(string, int64)); ok {
+		f(point, height)
+	}
+}
